@@ -13,12 +13,13 @@ LEVEL = "exploration"
 RULE = (
     "Semantic maps in 1-3-D (free voxel labelling with 1-4 semantic labels so that diagonal-only contacts and "
     "different-label adjacency are frequent; boxes), label values from classes {1..5, 250..255, 256..300, 65530..65535, "
-    "65536..70000}, signed and unsigned dtypes wide enough, backend in {default, cc3d, scipy}. Exhaustive: all 3x3 maps "
+    "65536..70000}, signed and unsigned dtypes wide enough, backend in {default, cc3d, scipy}; plus maps of 0-513 isolated "
+    "single-voxel components under one small semantic label (component counts around 2^8, where the output dtype is decided). Exhaustive: all 3x3 maps "
     "over {0,1,2} and all 2x2x2 maps over {0,1,2}, each under the three backends. Oracle: partition of the foreground "
     "computed by breadth-first flood fill under the documented connectivity (scipy: face, label-blind; cc3d: full, equal "
     "labels only; default = cc3d iff 3-D) must equal the partition by output label; labels exactly 1..n; n = reported "
     "count; foreground unchanged. Non-trivial: the two documented connectivities give different partitions on the map "
-    "(diagonal-only contact or adjacent different labels); distinct = distinct canonical case."
+    "(diagonal-only contact or adjacent different labels), or more than 255 components; distinct = distinct canonical case."
 )
 ASSUMPTIONS = ["no negative labels (documented precondition)"]
 BUDGET = {"quick": 300, "thorough": 5000}
@@ -45,8 +46,39 @@ def case_strategy(draw):
     }
 
 
+@st.composite
+def many_case(draw):
+    """Many isolated components under a small semantic label: the component count, not the label value,
+    decides the output dtype (counts around 2^8 and, in the thorough tier, 2^16)."""
+    counts = [1, 254, 255, 256, 257, 300, 511, 513]
+    return {
+        "kind": "many",
+        "n_pred": draw(st.sampled_from(counts + [0])),
+        "n_ref": draw(st.sampled_from(counts + [0])),
+        "label": draw(st.sampled_from([1, 3, 200, 255, 256, 1000])),
+        "rows": draw(st.sampled_from([1, 3])),
+        "dtype": draw(st.sampled_from(["uint8", "uint16", "int16", "int64", "uint32"])),
+        "backend": draw(st.sampled_from([None, "cc3d", "scipy"])),
+        "layout": "C",
+    }
+
+
+def build_many(case):
+    def one(n):
+        L = max(2 * max(case["n_pred"], case["n_ref"]) + 1, 3)
+        a = np.zeros((case["rows"], L), dtype=np.int64)
+        a[case["rows"] // 2, 1:2 * n:2] = case["label"]
+        return a if case["rows"] > 1 else a[0]
+    lab = case["label"]
+    dt = case["dtype"]
+    if lab > np.iinfo(dt).max:
+        dt = "int64"
+    return one(case["n_pred"]).astype(dt), one(case["n_ref"]).astype(dt)
+
+
 def searches(tier):
-    return [("maps", case_strategy(), BUDGET[tier])]
+    n = BUDGET[tier]
+    return [("maps", case_strategy(), n), ("many_components", many_case(), max(6, n // 8))]
 
 
 def enumerations(tier):
@@ -84,8 +116,11 @@ def _check_side(name, out, n_reported, inp, backend_eff):
 def check(case, stats):
     from panoptica import ConnectedComponentsInstanceApproximator, SemanticPair
 
-    pred = gen.with_layout(np.array(case["pred"]).astype(case["dtype"]), case["layout"])
-    ref = gen.with_layout(np.array(case["ref"]).astype(case["dtype"]), case["layout"])
+    if case.get("kind") == "many":
+        pred, ref = build_many(case)
+    else:
+        pred = gen.with_layout(np.array(case["pred"]).astype(case["dtype"]), case["layout"])
+        ref = gen.with_layout(np.array(case["ref"]).astype(case["dtype"]), case["layout"])
     bk = case["backend"]
     eff = bk or M.default_backend(pred.ndim)
     differs = any(set(M.cc_partition(a, "scipy")) != set(M.cc_partition(a, "cc3d")) for a in (pred, ref))
@@ -94,6 +129,11 @@ def check(case, stats):
         classes.append("backends_differ")
     if not pred.any() or not ref.any():
         classes.append("empty_side")
+    if case.get("kind") == "many":
+        classes.append("many_components")
+        mx = max(case["n_pred"], case["n_ref"])
+        classes.append("components>255" if mx > 255 else "components<=255")
+        differs = differs or mx > 255  # the dtype boundary is the interesting region here
     stats.record(case, differs, classes)
     pc, rc = pred.copy(), ref.copy()
     out = H.lib_call(lambda: lib.approximator(bk).approximate_instances(SemanticPair(pred, ref)))
